@@ -2009,9 +2009,9 @@ mod dn {
     use std::time::Duration;
     pub struct N;
     /// ask `.0` with a 1 ms timeout for a request whose handler parks on `.1` (so the ask ends by its timeout)
-    pub struct Probe(pub ActorRef<N>, pub Arc<tokio::sync::Semaphore>);
+    pub struct Probe(pub ActorRef<N>, pub Arc<tokio::sync::Semaphore>, pub Arc<tokio::sync::Semaphore>);
     /// park until released, then - still inside this handler - ask `.1` (the former asker, idle by then)
-    pub struct Park(pub Arc<tokio::sync::Semaphore>, pub ActorRef<N>);
+    pub struct Park(pub Arc<tokio::sync::Semaphore>, pub ActorRef<N>, pub Arc<tokio::sync::Semaphore>);
     pub struct Relay(pub ActorRef<N>);
     pub struct Ping;
     impl Actor for N {
@@ -2030,6 +2030,7 @@ mod dn {
     impl Message<Park> for N {
         type Reply = bool;
         async fn handle(&mut self, m: Park, _: &ActorRef<Self>) -> bool {
+            m.2.add_permits(1); // tell the driver that this request has been taken
             let _ = tokio::time::timeout(Duration::from_secs(10), m.0.acquire()).await;
             m.1.ask(Ping).await.is_ok()
         }
@@ -2037,13 +2038,24 @@ mod dn {
     impl Message<Probe> for N {
         type Reply = bool;
         async fn handle(&mut self, m: Probe, me: &ActorRef<Self>) -> bool {
-            m.0.ask_with_timeout(Park(m.1, me.clone()), Duration::from_millis(1)).await.is_ok()
+            m.0.ask_with_timeout(Park(m.1, me.clone(), m.2), Duration::from_millis(1)).await.is_ok()
         }
     }
     impl Message<Relay> for N {
         type Reply = bool;
         async fn handle(&mut self, m: Relay, _: &ActorRef<Self>) -> bool {
             m.0.ask(Ping).await.is_ok()
+        }
+    }
+    /// create the ask future inside this handler (through a `'static` reference) but let a detached task drive it: the hook
+    /// itself never waits for the callee, so it must not appear in the wait-for graph
+    pub struct Eager(pub &'static ActorRef<N>, pub Arc<tokio::sync::Semaphore>, pub Arc<tokio::sync::Semaphore>);
+    impl Message<Eager> for N {
+        type Reply = bool;
+        async fn handle(&mut self, m: Eager, me: &ActorRef<Self>) -> bool {
+            let fut = m.0.ask(Park(m.1, me.clone(), m.2));
+            tokio::spawn(fut);
+            true
         }
     }
 }
@@ -2077,15 +2089,29 @@ fn round_dlrace(seed: u64, hb: &Heartbeat, tot: &Mutex<Tot>, prop: &str) {
                 for _ in 0..iters {
                     // A's in-actor ask to B ends by its 1 ms timeout (B's handler is parked); A's handler returns
                     let gate = Arc::new(tokio::sync::Semaphore::new(0));
-                    match a.ask(Probe(b.clone(), gate.clone())).await {
-                        Ok(false) => n += 1,
-                        Ok(true) => {}
-                        Err(e) => return Err(format!("the probing actor failed: {e:?}")),
+                    let entered = Arc::new(tokio::sync::Semaphore::new(0));
+                    if p == 0 && pr.chance(50) {
+                        // variant: A only creates the ask (future built in its hook, driven by a detached task) and returns
+                        let leaked: &'static rsactor::ActorRef<N> = Box::leak(Box::new(b.clone()));
+                        match a.ask(Eager(leaked, gate.clone(), entered.clone())).await {
+                            Ok(true) => {}
+                            other => return Err(format!("the actor that only creates an ask future failed: {other:?}")),
+                        }
+                    } else {
+                        match a.ask(Probe(b.clone(), gate.clone(), entered.clone())).await {
+                            Ok(false) => n += 1,
+                            Ok(true) => {}
+                            Err(e) => return Err(format!("the probing actor failed: {e:?}")),
+                        }
                     }
                     if pr.chance(30) {
                         tokio::task::yield_now().await;
                     }
-                    // only now is B released: still inside the stale request's handler it asks the idle A, which must simply work
+                    // B must really be inside that request's handler (parked), and A's handler must be over, before B is released:
+                    // still inside the stale request's handler it then asks the idle A, which must simply work
+                    if tokio::time::timeout(Duration::from_secs(10), entered.acquire()).await.is_err() {
+                        return Err("the callee never took the request".to_string());
+                    }
                     gate.add_permits(1);
                     match b.ask(Ping).await {
                         Ok(_) => {}
